@@ -5,7 +5,7 @@ function on values that are concrete on the path; anything else raises Unsupport
 import re
 import z3
 from .core import Unsupported, is_sym, conc, Outcome
-from .gossa import (GoPanic, GoExit, Ptr, Cell, Slice, Iface, Closure, GoMap, go_str, cp, wrap, decode_rune, SymName, SymRope)
+from .gossa import (GoPanic, GoExit, Ptr, Cell, Slice, Iface, Closure, GoMap, go_str, cp, wrap, decode_rune, SymName, SymRope, SymDigits)
 
 INTR = {}
 SYM_MARK = '\x01SYM\x01'
@@ -83,14 +83,19 @@ def fmt_value(M, v, verb='v', plus=False):
         return fmt_typed(M, inner, v.t, verb)
     if v is None:
         return '<nil>' if verb != 's' else '%!s(<nil>)'
-    return fmt_plain(v, verb)
+    return fmt_plain(v, verb, M)
 
 
-def fmt_plain(v, verb):
+def fmt_plain(v, verb, M=None):
     if is_sym(v):
         c = conc(v)
         if c is None:
-            return SYM_MARK       # a symbolic number printed into text: visible to the checks as a marker
+            if M is not None and getattr(M.ctl, 'allow_concretise', False) and z3.is_bv(v):
+                c = M.ctl.concretise(v)          # a symbolic size printed into text: pinned to a witness value
+                if c >> (v.size() - 1):
+                    c -= 1 << v.size()
+            else:
+                return SYM_MARK       # a symbolic number printed into text: visible to the checks as a marker
         v = c
     if isinstance(v, bool):
         return 'true' if v else 'false'
@@ -122,12 +127,12 @@ def fmt_typed(M, v, tid, verb):
     if k == 'basic':
         b = u['basic']
         if verb == 't' and not isinstance(v, bool):
-            return '%!t(' + b + '=' + fmt_plain(v, 'v') + ')'
+            return '%!t(' + b + '=' + fmt_plain(v, 'v', M) + ')'
         if verb == 'd' and isinstance(v, bool):
             return '%!d(bool=' + ('true' if v else 'false') + ')'
         if verb == 'v' and b in ('uint8', 'byte') and False:
             return str(v)
-        return fmt_plain(v, verb)
+        return fmt_plain(v, verb, M)
     if k == 'map':
         if v is None:
             return 'map[]'
@@ -392,12 +397,29 @@ def _(M, a):
     return a[0][:-len(a[1])] if a[1] and a[0].endswith(a[1]) else a[0]
 
 
+MAX_ALLOC = 1 << 48          # runtime.maxAlloc on linux/amd64: a larger make panics whatever the machine's memory
+
+
 @intr('strings.Repeat')
 def _(M, a):
-    need_conc(*a)
-    if a[1] < 0:
+    need_conc(a[0])
+    n = a[1]
+    ln = max(1, len(a[0]))
+    if is_sym(n) and conc(n) is None:
+        if M.ctl.branch(n < 0):
+            raise GoPanic('explicit', 'strings: negative Repeat count', '')
+        if len(a[0]) > 0 and M.ctl.branch(z3.UGE(n, (MAX_ALLOC + ln - 1) // ln)):
+            raise GoPanic('runtime', 'makeslice: len out of range (strings.Repeat of %d bytes x a count the input chooses)' % len(a[0]), '')
+        n = M.ctl.concretise(n)
+    elif is_sym(n):
+        n = conc(n)
+    if n < 0:
         raise GoPanic('explicit', 'strings: negative Repeat count', '')
-    return a[0] * a[1]
+    if len(a[0]) * n >= MAX_ALLOC:
+        raise GoPanic('runtime', 'makeslice: len out of range', '')
+    if len(a[0]) * n > (1 << 26):
+        raise Unsupported('strings.Repeat builds %d bytes' % (len(a[0]) * n))
+    return a[0] * n
 
 
 @intr('strings.ReplaceAll')
@@ -629,6 +651,12 @@ def _(M, a):
     return re.sub(r'(^|[^A-Za-z0-9_])([a-z])', lambda m: m.group(1) + m.group(2).upper(), a[0])
 
 
+def _atoi_sym(M, a):
+    if isinstance(a[0], SymDigits):
+        return (a[0].term, None)         # the text is all digits and below 10^18 by construction (decorate)
+    return _atoi_forced(M, a)
+
+
 @intr('strconv.Atoi')
 def _(M, a):
     need_conc(a[0])
@@ -639,6 +667,10 @@ def _(M, a):
             return (v, None)
         return ((1 << 63) - 1 if v > 0 else -(1 << 63), mkerr('strconv.Atoi: parsing "%s": value out of range' % s))
     return (0, mkerr('strconv.Atoi: parsing "%s": invalid syntax' % s))
+
+
+_atoi_forced = INTR['strconv.Atoi']
+INTR['strconv.Atoi'] = _atoi_sym
 
 
 def _parse_int(fn, s, base, bits, signed):
